@@ -1007,7 +1007,7 @@ def run_layers(prop, tag, items):
 
 
 # ======================================================================= gate domains
-def gate_specs(tag, N, tier):
+def gate_specs(tag, N, tier, prop='C09'):
     """The single-gate domain of the `gates` legs (ascending qubit tuples only for generic gates)."""
     out = []
     quick = tier == 'quick'
@@ -1051,8 +1051,8 @@ def gate_specs(tag, N, tier):
             for kind in ('fmap', 'bmap', 'fbmap'):
                 out.append([kind, qs, 1, i])
     if N >= 2:
-        if tag == 'py':
-            stride = 97 if quick else 1
+        if tag == 'py':     # all 11520 two-qubit maps in thorough (C10 at N=3: every third, three placements each)
+            stride = 97 if quick else (3 if (prop == 'C10' and N == 3) else 1)
         else:
             stride = 2879 if quick else 577
         for qs in tuples[2]:
